@@ -255,19 +255,29 @@ theorem routing_by_name (S : Solver α) (env : String → α) (m : M α) (x : α
 
 end algebra
 
-/-- `InverseModel`: whatever solver is plugged in, IF it answers within `tol` (the one assumption
-    standing in for SciPy), then `model(inverse(y)) = y` within `tol` — for every model expression,
-    every parameter dictionary and both solver flavours. -/
-theorem inverse_round_trip (S : Solver ℝ) (tol : ℝ)
-    (hS : ∀ (i : Bool) (f : ℝ → ℝ) (lo hi y : ℝ), |f (S i f lo hi y) - y| ≤ tol)
-    (env : String → ℝ) (m : M ℝ) (lo hi : ℝ) (i : Bool) (y : ℝ) :
+/-- `InverseModel`: whatever solver is plugged in, IF it answers within `tol` on the class `P` of
+    problems it is specified for (the one assumption standing in for SciPy; e.g. `P f lo hi y` =
+    "`f` is continuous and increasing on `[lo, hi]` and takes the value `y` there"), and the
+    parent's function — evaluated with the parent's own parameters — is such a problem, then
+    `model(inverse(y))` is within `tol` of `y`: the inverse node hands the solver exactly the
+    parent's function and the same parameter dictionary. Every expression, both solver flavours. -/
+theorem inverse_round_trip (S : Solver ℝ) (tol : ℝ) (P : (ℝ → ℝ) → ℝ → ℝ → ℝ → Prop)
+    (hS : ∀ (i : Bool) (f : ℝ → ℝ) (lo hi y : ℝ), P f lo hi y → |f (S i f lo hi y) - y| ≤ tol)
+    (env : String → ℝ) (m : M ℝ) (lo hi : ℝ) (i : Bool) (y : ℝ)
+    (hP : P (fun x => m.val S x (m.params.map env)) lo hi y) :
     |m.val S ((M.inv m lo hi i).val S y ((M.inv m lo hi i).params.map env)) (m.params.map env) - y| ≤ tol := by
+  have hfun : (fun x => m.val S x (m.params.map env)) = fun x => m.spec S env x := by
+    funext x; exact val_eq_spec S env m x
+  rw [hfun] at hP
   rw [val_eq_spec, val_eq_spec]
-  exact hS i (fun f => m.spec S env f) lo hi y
+  exact hS i (fun f => m.spec S env f) lo hi y hP
 
--- the assumption is satisfiable (an exact solver of `f = id`‑like problems; here tol = 0 for the identity)
-example : ∃ (S : Solver ℝ) (tol : ℝ), ∀ i lo hi y, |(fun x : ℝ => x) (S i (fun x => x) lo hi y) - y| ≤ tol :=
-  ⟨fun _ _ _ _ y => y, 0, by intro i lo hi y; simp⟩
+-- the assumption is satisfiable: a solver that is exact on the problems `f = id`
+example : ∃ (S : Solver ℝ) (tol : ℝ) (P : (ℝ → ℝ) → ℝ → ℝ → ℝ → Prop),
+    (∀ (i : Bool) (f : ℝ → ℝ) (lo hi y : ℝ), P f lo hi y → |f (S i f lo hi y) - y| ≤ tol) ∧
+    P (fun x => x) 0 1 0.5 :=
+  ⟨fun _ _ _ _ y => y, 0, fun f _ _ _ => f = fun x => x, by
+    intro i f lo hi y hf; subst hf; simp, rfl⟩
 
 /-- DNA convenience parametrisations: contour length `kbp · µm/kbp`; `kT` in pN·nm is `10²¹·k_B·T`
     (1 pN·nm = 10⁻²¹ J, `T` in kelvin); at the default temperature 24.53608821 °C this is the
